@@ -78,6 +78,8 @@ type Run struct {
 	samples []any
 	nsample map[string]int
 	Extra   map[string]any
+	// NoEvidence: coverage pass of ./check; the verdict is ignored and nothing is written
+	NoEvidence bool
 	Rule    string
 	Assume  []string
 
@@ -563,7 +565,7 @@ func (r *Run) distinct() int64 {
 }
 
 func (r *Run) writeEvidence(unlisted int) {
-	if r.Replay != nil {
+	if r.Replay != nil || r.NoEvidence {
 		return
 	}
 	stateCov := map[string]any{}
